@@ -213,6 +213,10 @@ def check_C06(ctx):
             for sh in range(shards):
                 jobs.append(Job(g, "TestC06", name="C06:%s/backend%s#%d" % (mode, be, sh), timeout=1800,
                                 env={"VERIF_PARAM_MODE": mode, "VERIF_PARAM_BACKEND": be, "VERIF_SHARD": "%d/%d" % (sh, shards), "GOMAXPROCS": "4"}))
+    # process level: servers started by main.run(), defaults (validation + dependency checking on) x options that must not matter
+    m = ctx.bin(".")
+    for other in (("none", "mangling", "asset", "mangling+asset", "uncompressed", "metrics", "max_blob_size") if th else ("none", "mangling", "asset", "mangling+asset")):
+        jobs.append(Job(m, "TestVfC06Main", name="C06main:other=%s" % other, timeout=600, env={"VERIF_PARAM_OTHER": other}))
     # E5: Spin model of the fail-fast join + replay of every trail against the implementation
     import e5
     w = os.path.join(ctx.work, "spin")
@@ -239,7 +243,7 @@ def check_C06(ctx):
     if unfixed["errors"] == 0:
         raise V.Broken("Spin finds no violation in the unrepaired model variant: the model cannot express the defect")
     return dict(level="exploration", jobs=jobs, extra_cov=extra,
-                rule="every ActionResult shape of a bounded grammar (0-2 output files each digest-only/inline/empty-blob; output directory with Tree variants incl. children and a nil digest; stdout/stderr digest nil/set/empty) x every assignment of {present, absent, stored with another size} (or {present, absent, backend only} with a backend) to its <=5 (7 thorough) referenced blobs, x gRPC GetActionResult, HTTP GET and HEAD; 25 output files with each single one absent (across the batch of 20); recency after a hit; aliasing: every ordered pair of reference slots naming the same stored blob (hit), the same hash with size+1 / size-1 in either order (miss), the same absent digest (miss); with a backend the alphabet has a fourth class X = held by the backend only and larger than max_proxy_blob_size (not obtainable: miss); tree-file-fault: the Tree blob indexed but its file removed behind the cache (must be a miss, never an error); stdout / stderr given BOTH inline and by digest (the digest is a reference like any other); non-trivial = distinct (shape, assignment) cells",
+                rule="process level: servers started by main.run() with the defaults (validation and dependency checking on) x options that must not matter (mangling, asset API, ...): an ActionResult with one referenced blob absent in each of 6 positions (output file, stdout, stderr, Tree blob, file in the Tree root, file in a child directory) x stored via HTTP / gRPC x instance: miss on gRPC, GET and HEAD; all present: hit; every ActionResult shape of a bounded grammar (0-2 output files each digest-only/inline/empty-blob; output directory with Tree variants incl. children and a nil digest; stdout/stderr digest nil/set/empty) x every assignment of {present, absent, stored with another size} (or {present, absent, backend only} with a backend) to its <=5 (7 thorough) referenced blobs, x gRPC GetActionResult, HTTP GET and HEAD; 25 output files with each single one absent (across the batch of 20); recency after a hit; aliasing: every ordered pair of reference slots naming the same stored blob (hit), the same hash with size+1 / size-1 in either order (miss), the same absent digest (miss); with a backend the alphabet has a fourth class X = held by the backend only and larger than max_proxy_blob_size (not obtainable: miss); tree-file-fault: the Tree blob indexed but its file removed behind the cache (must be a miss, never an error); stdout / stderr given BOTH inline and by digest (the digest is a reference like any other); non-trivial = distinct (shape, assignment) cells",
                 assumptions=["AC entries are stored directly through the disk layer (UpdateActionResult does not check dependencies either)",
                              "the backend is a scriptable cache.Proxy; the fail-fast join with a backend is additionally model-checked (E5) and its trails replayed"])
 
@@ -269,8 +273,12 @@ def check_C11(ctx):
     shards = 8 if ctx.thorough() else 3
     jobs = [Job(g, "TestC11", name="C11:%s#%d" % (mode, sh), timeout=3600, env={"VERIF_PARAM_MODE": mode, "GOMAXPROCS": "4", "VERIF_SHARD": "%d/%d" % (sh, shards)})
             for mode in ("zstd", "uncompressed") for sh in range(shards)]
+    m = ctx.bin(".")
+    for other in (("none", "mangling", "asset", "mangling+asset", "uncompressed", "metrics") if ctx.thorough() else ("none", "mangling+asset")):
+        for novalid in ("0", "1"):
+            jobs.append(Job(m, "TestVfC11Main", name="C11main:other=%s,novalid=%s" % (other, novalid), timeout=600, env={"VERIF_PARAM_OTHER": other, "VERIF_PARAM_NOVALID": novalid}))
     return dict(level="exploration", jobs=jobs,
-                rule="message grammar: a fully populated valid ActionResult and four further valid shapes, plus one invalid field of each kind (empty/absolute path, empty target, nil digest, empty element, negative size, short/upper-case/non-hex/empty hash) at every position where it can occur (output files, output directories, the three symlink lists, stdout/stderr digests) x 5 encodings (gRPC, HTTP protobuf, HTTP JSON, each also zstd-wrapped); validation disabled; all 8 inline-request combinations x stdout size {small, exactly the 3 MiB budget, over it}; alternating overwrites through all encodings with invalid uploads in between; execution metadata: every subset of {worker, queued/completed timestamps, virtual duration, auxiliary metadata}; each optional part of the full message dropped alone; two deviations at once: ordered pairs of variants (quick: a valid shape with an invalid one, gRPC and HTTP protobuf; thorough: all ordered pairs, all five encodings), expected verdict from the harness's own reference validator, which is first checked against every single variant's label; inline cells for results uploaded over gRPC and over HTTP: after every hit each de-inlined field's digest resolves in the CAS to the uploaded bytes; stdout / stderr inline WITH a digest: matching (valid) and each malformed digest kind (invalid); non-trivial = distinct (message, encoding) cells accepted or rejected with the post-conditions checked",
+                rule="process level: servers started by main.run() with HTTP validation on/off x options that must not matter: 7 ill-formed uploads (not a protobuf, absolute / empty path, short hash, negative size, nil file / tree digest) and valid ones through both front ends - refused and nothing left behind where validation applies, stored verbatim and invisible to gRPC where it is disabled; message grammar: a fully populated valid ActionResult and four further valid shapes, plus one invalid field of each kind (empty/absolute path, empty target, nil digest, empty element, negative size, short/upper-case/non-hex/empty hash) at every position where it can occur (output files, output directories, the three symlink lists, stdout/stderr digests) x 5 encodings (gRPC, HTTP protobuf, HTTP JSON, each also zstd-wrapped); validation disabled; all 8 inline-request combinations x stdout size {small, exactly the 3 MiB budget, over it}; alternating overwrites through all encodings with invalid uploads in between; execution metadata: every subset of {worker, queued/completed timestamps, virtual duration, auxiliary metadata}; each optional part of the full message dropped alone; two deviations at once: ordered pairs of variants (quick: a valid shape with an invalid one, gRPC and HTTP protobuf; thorough: all ordered pairs, all five encodings), expected verdict from the harness's own reference validator, which is first checked against every single variant's label; inline cells for results uploaded over gRPC and over HTTP: after every hit each de-inlined field's digest resolves in the CAS to the uploaded bytes; stdout / stderr inline WITH a digest: matching (valid) and each malformed digest kind (invalid); non-trivial = distinct (message, encoding) cells accepted or rejected with the post-conditions checked",
                 assumptions=["nil elements of repeated fields cannot be put on the wire by the protobuf runtime; empty elements stand in for them",
                              "an empty output-directory path is valid (REAPI: the working directory itself)"])
 
